@@ -3,6 +3,7 @@ Driver for Model/TextCodec.lean:   lake env lean --run PgVerif/Drv/TextCodec.lea
   cast <hex of the UTF-8 bytes of the string>      -> none | bool T/F | int | float | list | str
   dom <sep hex> <hex>                              -> T | F    (inCsvDomain)
   line <sep hex> <hex line>                        -> ok <hex key> <hex value> | refused
+  meta <sep hex> <hex line>…                       -> refused | read <n rest lines> <hex key>=<hex value>…   (`readMeta` with the GENERATED stop prefixes on the given lines)
   seq <hex>                                        -> err | list <c:hex>… | tuple <c:hex>… | scalar <c:hex>   (`fromList`; c = i | f, the item's class)
   tostr L|T <hex item>…                            -> <hex>          (`toStringSeq`)
   removeall <hex p> <hex s>                        -> <hex>          (`removeAll`)
@@ -89,6 +90,13 @@ def table : String → Option String
 
 def step (ts : List String) : String :=
   match ts with
+  | "meta" :: sp :: hs =>
+    match unhex sp, hs.mapM unhex with
+    | some [c], some ls =>
+      (match readMeta c (csvMetaStops.map String.toList) ls with
+       | .refused => "refused"
+       | .read es rest => " ".intercalate (["read", toString rest.length] ++ es.map fun kv => s!"{hexOf kv.1}={hexOf kv.2}"))
+    | _, _ => "bad-op"
   | ["seq", h] => (match unhex h with | some s => showSeq (fromList s) | none => "bad-op")
   | "tostr" :: k :: hs =>
     match (if k == "L" then some SeqKind.list else if k == "T" then some SeqKind.tuple else none), hs.mapM unhex with
